@@ -326,7 +326,7 @@ def solve_request(spec, rec):
     the resolved limits and the reported best are all predicted (DE/DE2: from the recorded trial vectors; Nelder-Mead:
     from the initial guess alone)."""
     solver = spec["solver"]
-    if solver not in ("DE", "DE2", "NM") or not spec["ops"] or spec["ops"][0][0] != "solve" or spec.get("pushing"):
+    if solver not in ("DE", "DE2", "NM", "Powell") or not spec["ops"] or spec["ops"][0][0] != "solve" or spec.get("pushing"):
         return None, None
     if spec.get("ranges") and spec["ranges"][3] is False:
         return None, None
@@ -343,9 +343,21 @@ def solve_request(spec, rec):
     N = spec["dim"]
     lim = spec.get("limits") or (None, None)
     head = "C05 solve %s (kind %s) (term %s) (scale %d %d) (limits %s %s) (fuel %d)" % (
-        setup_sexp(spec), {"DE": "de", "DE2": "de2", "NM": "nm"}[solver], te, N * npop * si, N * npop * se,
+        setup_sexp(spec), {"DE": "de", "DE2": "de2", "NM": "nm", "Powell": "pw"}[solver], te, N * npop * si, N * npop * se,
         lim_str(lim[0]), lim_str(lim[1]), sn["generations"] + 50)
-    if solver == "NM":
+    lss = None
+    if solver == "Powell":
+        lss = rec.linesearch[:sn["n_ls"]]
+        recs = []
+        for (p, xi, fret, xn, xin, pts) in lss:
+            idx = next((j for j, (z, v) in enumerate(pts) if same_vec(z, xn)), None)
+            if idx is None:
+                return None, None          # reported by the step-wise replay (pw_request) as a broken oracle contract
+            recs.append("((pre (%s)) (y %s) (post (%s)) (xi %s))" % (" ".join(fl(z) for z, _ in pts[:idx]), fl(xn),
+                                                                    " ".join(fl(z) for z, _ in pts[idx + 1:]), fl(xin)))
+        record = not (spec.get("limits") is not None and spec["limits"][0] == 0)
+        line = head + " (x0 %s) (record %s) (ls (%s))" % (fl(spec["x0"]), "true" if record else "false", " ".join(recs))
+    elif solver == "NM":
         if spec["dim"] > 15:
             return None, None
         mut = bool(spec.get("inplace")) and spec.get("constraints") is not None and not spec.get("ranges")
@@ -381,6 +393,10 @@ def solve_request(spec, rec):
             diffs.append("limits model=(%s,%s) impl=(%s,%s)" % (d["maxiter"], d["maxfun"], lim_str(sn["maxiter"]), lim_str(sn["maxfun"])))
         if (d["live"] == "true") != sn["live"]:
             diffs.append("live model=%s impl=%s" % (d["live"], sn["live"]))
+        if lss is not None and not diffs:
+            reqs = d["reqs"]
+            if int(d["nls"]) != len(lss) or len(reqs) != len(lss) or not all(same_vec(fvec(q[0]), l[0]) and same_vec(fvec(q[1]), l[1]) for q, l in zip(reqs, lss)):
+                diffs.append("line searches requested by the model (%s) differ from the %d the implementation made" % (d["nls"], len(lss)))
         if not diffs:
             if not same_vec(fvec(d["best"]), sn["bestSolution"]):
                 diffs.append("bestSolution model=%r impl=%r" % (fvec(d["best"]), sn["bestSolution"]))
